@@ -120,6 +120,7 @@ pub fn run(arg: &str) -> (bool, String) {
         "c07" => c07(),
         "c11" => c11(),
         "c09" => c09(),
+        "c17" => c17(),
         _ => (false, format!("unknown scenario {arg}")),
     }
 }
@@ -279,6 +280,43 @@ fn c11() -> (bool, String) {
 
 /// C18: run `arg` = get_info | make_credential | get_assertion through the trait; a child process is used by the
 /// caller because the failure mode is unbounded recursion (stack overflow aborts the process).
+/// C17: U2F registration / authentication through the real `U2fApi`, checked with p256's verifier over the byte strings of the
+/// property (an independent statement of the signing inputs), for several key handles, counters and presence flags.
+fn c17() -> (bool, String) {
+    use p256::ecdsa::{signature::Verifier, Signature, VerifyingKey};
+    use p256::EncodedPoint;
+    use passkey_authenticator::U2fApi;
+    use passkey_types::u2f::{AuthenticationParameter, AuthenticationRequest, RegisterRequest};
+    let mut n = 0;
+    for hl in [0usize, 1, 16, 255] { for (ci, counter) in [0u32, 1, 0x01020304, u32::MAX].into_iter().enumerate() { for fb in [0x00u8, 0x01, 0x04, 0x05, 0x1d, 0xdd] {
+        n += 1;
+        let flags = match Flags::from_bits(fb) { Some(f) => f, None => continue };
+        let store = RefStore::new(2);
+        let mut a = Authenticator::new(Aaguid::new_empty(), store.clone(), yes());
+        let application = [0xa0u8 + ci as u8; 32]; let challenge = [0x5cu8; 32];
+        let handle: Vec<u8> = (0..hl).map(|k| (k * 7 + 1) as u8).collect();
+        let ctx = format!("key handle of {hl} byte(s), counter {counter}, presence byte {fb:#04x}");
+        let reg = match block_on(U2fApi::register(&mut a, RegisterRequest { challenge, application }, &handle)) { Ok(r) => r, Err(e) => return (true, format!("{ctx}: registration failed: {e:?}")) };
+        let point = EncodedPoint::from_affine_coordinates(&reg.public_key.x.into(), &reg.public_key.y.into(), false);
+        let vk = match VerifyingKey::from_encoded_point(&point) { Ok(k) => k, Err(_) => return (true, format!("{ctx}: returned public key is not a P-256 point")) };
+        let mut input = vec![0x00u8]; input.extend_from_slice(&application); input.extend_from_slice(&challenge); input.extend_from_slice(&handle);
+        input.push(0x04); input.extend_from_slice(&reg.public_key.x); input.extend_from_slice(&reg.public_key.y);
+        let sig = match Signature::from_slice(&reg.signature).or_else(|_| Signature::from_der(&reg.signature)) { Ok(s) => s, Err(_) => return (true, format!("{ctx}: registration signature is not an ECDSA signature")) };
+        if vk.verify(&input, &sig).is_err() { return (true, format!("{ctx}: registration signature does not verify over 0x00 || application || challenge || key handle || public key")); }
+        if reg.key_handle != handle { return (true, format!("{ctx}: response key handle differs")); }
+        if store.items.lock().unwrap().len() != 1 || store.items.lock().unwrap()[0].credential_id.to_vec() != handle { return (true, format!("{ctx}: no credential stored for that key handle")); }
+        let challenge2 = [0x77u8; 32];
+        let req = |kh: Vec<u8>| AuthenticationRequest { parameter: AuthenticationParameter::CheckOnly, application, challenge: challenge2, key_handle: kh };
+        let auth = match block_on(U2fApi::authenticate(&a, req(handle.clone()), counter, flags)) { Ok(r) => r, Err(e) => return (true, format!("{ctx}: authentication failed: {e:?}")) };
+        let mut input2 = application.to_vec(); input2.push(fb); input2.extend_from_slice(&counter.to_be_bytes()); input2.extend_from_slice(&challenge2);
+        let sig2 = match Signature::from_der(&auth.signature) { Ok(s) => s, Err(_) => return (true, format!("{ctx}: authentication signature is not DER")) };
+        if vk.verify(&input2, &sig2).is_err() { return (true, format!("{ctx}: authentication signature does not verify over application || presence byte || big-endian counter || challenge")); }
+        let mut other = handle.clone(); other.push(0xee);
+        if block_on(U2fApi::authenticate(&a, req(other), counter, flags)).is_ok() { return (true, format!("{ctx}: an unknown key handle was accepted")); }
+    } } }
+    (false, format!("U2F signatures verify over the specified inputs in {n} scenarios"))
+}
+
 /// C09: PRF outputs of an assertion are HMAC-SHA-256 (independent implementation: the hmac + sha2 crates) keyed with the
 /// verification-gated secret iff the user was verified, else the other secret, over the salts selected for the asserted
 /// credential (an evalByCredential entry for its id before the top-level eval); no verification and no ungated secret =>
